@@ -11,8 +11,36 @@ from . import common  # noqa: F401  (puts the repo under test on sys.path)
 from transitions.extensions.markup import MarkupMachine, HierarchicalMarkupMachine
 from transitions.extensions.diagrams import GraphMachine, HierarchicalGraphMachine
 
+from enum import Enum, IntEnum
+try:
+    from enum import StrEnum
+except ImportError:      # Python < 3.11
+    class StrEnum(str, Enum):
+        pass
+
 TRUTH = {}
-RECORDER = {'log': None, 'machine': None}
+# 'ctx': the callback program of the run in progress (harness.markupcase.Ctx) — callbacks may read the markup or
+# modify the machine from inside; None while histories are replayed
+RECORDER = {'log': None, 'machine': None, 'ctx': None}
+
+
+def state_repr(v):
+    """a model state as the markup names it: Enum members by name, parallel states as nested lists"""
+    if isinstance(v, Enum):
+        return v.name
+    if isinstance(v, (list, tuple)):
+        return [state_repr(x) for x in v]
+    return v
+
+
+# Enum flavours for state definitions (module level: members must be picklable).  Values differ from the
+# member names on purpose; IntE has a member with value 0.
+_NAMES = ['A', 'B', 'C', 'D', 'E', 'F', 'G', 'H', 'P', 'Q']
+PlainE = Enum('PlainE', [(n, (i + 1) * 10) for i, n in enumerate(_NAMES)], module=__name__)
+IntE = IntEnum('IntE', [(n, i) for i, n in enumerate(_NAMES)], module=__name__)
+StrMixE = Enum('StrMixE', [(n, n.lower() + '-value') for n in _NAMES], module=__name__, type=str)
+StrE = StrEnum('StrE', [(n, n.lower()) for n in _NAMES], module=__name__)
+ENUMS = {'plain': PlainE, 'int': IntE, 'strmix': StrMixE, 'strenum': StrE}
 
 
 def _synth(owner, name):
@@ -22,10 +50,13 @@ def _synth(owner, name):
             m = RECORDER['machine']
             try:
                 ix = m.models.index(owner)
-                st = getattr(owner, m.model_attribute, None)
+                st = state_repr(getattr(owner, m.model_attribute, None))
             except ValueError:
                 ix, st = -1, None
-            log.append(['cb', name, ix, st if not isinstance(st, list) else list(st)])
+            log.append(['cb', name, ix, st])
+        ctx = RECORDER['ctx']
+        if ctx is not None:
+            ctx.invoke(name)
         return TRUTH.get(name, True)
     cb.__name__ = name
     return cb
